@@ -38,6 +38,11 @@ func NumUnchoking() int {
 
 const reqQ = 250
 
+// maxRequestLength is the largest request that we are willing to serve.
+// BEP 3 recommends 16kB and notes that implementations refuse requests
+// larger than 128kB.
+const maxRequestLength = 128 * 1024
+
 type Requested struct {
 	Index, Begin, Length uint32
 }
@@ -852,6 +857,9 @@ func handleMessage(peer *Peer, m protocol.Message) error {
 		maybeInterested(peer)
 	case protocol.Request:
 		if peer.Info == nil || peer.amUnchoking == 0 {
+			return reject(peer, m.Index, m.Begin, m.Length)
+		}
+		if m.Length > maxRequestLength {
 			return reject(peer, m.Index, m.Begin, m.Length)
 		}
 		if len(peer.requested) >= reqQ {
